@@ -89,8 +89,9 @@ def _payload(item, ts):
     return K.ref_encode(K.mk_ds(item["elems"]), ts)
 
 
-def build(item, op, ts):
-    """-> (context_id, primitive)"""
+def build(item, op, ts, idx=0):
+    """-> (context_id, primitive); own-type responses carry ErrorComment "r<idx>" so that a yield can be attributed
+    to the script item it reports (harness aid only: attribution falls back to positional matching without it)."""
     from pynetdicom import dimse_primitives as P
 
     t = item["t"]
@@ -123,8 +124,8 @@ def build(item, op, ts):
         r.Status = item["status"]
     if hasattr(r, "AffectedSOPClassUID"):
         r.AffectedSOPClassUID = OPS[op][0]
-    if item.get("comment") and hasattr(r, "ErrorComment"):
-        r.ErrorComment = "some comment"
+    if t == "rsp" and hasattr(r, "ErrorComment"):
+        r.ErrorComment = f"r{idx}"
     param = REPLY_PARAM.get(kind)
     if param is not None:
         b = _payload(item, ts)
@@ -144,6 +145,8 @@ def _ident_class(item, ts):
         return "no-identifier"
     if d == "garbage":
         return "undecodable"
+    if d == "empty" and not K.decodable(b"", ts, force=False):
+        return "undecodable"  # zero bytes are not a deflate stream
     return d  # valid / empty
 
 
@@ -157,6 +160,7 @@ def model(op, script, ts):
         ended = False
         for it in script:
             consumed += 1
+            src = consumed - 1
             if it["t"] == "store_rq":
                 if op in ("c_get", "c_move"):
                     nsub += 1
@@ -188,7 +192,7 @@ def model(op, script, ts):
                 else:
                     ident = ("none",)  # documented: Pending -> None for C-GET / C-MOVE
                     cls = "pending"
-                exp.append({"cls": cls, "status": st, "ident": ident})
+                exp.append({"cls": cls, "status": st, "ident": ident, "src": src})
                 continue
             cat = K.category(st)
             if op == "c_find" or cat == "success":
@@ -202,7 +206,7 @@ def model(op, script, ts):
                     ident = ("none-or-empty",)
             else:
                 ident = ("any",)
-            exp.append({"cls": "final-" + cat, "status": st, "ident": ident})
+            exp.append({"cls": "final-" + cat, "status": st, "ident": ident, "src": src})
             ended = True
             break
         if not ended:
@@ -225,7 +229,7 @@ def model(op, script, ts):
     cat = K.category(st)
     if op not in N_WITH_REPLY:
         return [{"cls": "final-" + cat, "status": st, "ident": None}], 1, False, 0
-    ic = _ident_class(it, ts)
+    ic = "empty" if it["ds"] in ("none", "empty") else _ident_class(it, ts)
     if cat in ("success", "warning"):
         if ic == "valid":
             return [{"cls": "reply-valid", "status": st, "ident": ("ds", K.ds_plain(K.mk_ds(it["elems"])))}], 1, False, 0
@@ -293,35 +297,51 @@ def _show(y):
     return f"({st}, {'None' if i is None else 'Dataset[%d]' % len(i)})"
 
 
-def compare(ctx, op, observed, exp):
-    """Exactly-once / in-order / stop-at-final. Keys name the class of the response at which the sequences diverge."""
-    for i, e in enumerate(exp):
-        if i >= len(observed):
-            ctx.fail("yield-once", f"missing:{e['cls']}", f"{op}: expected {len(exp)} yields {[x['cls'] for x in exp]}, got {[_show(y) for y in observed]}")
-            return
-        bad = _match(observed[i], e)
-        if bad:
-            if i > 0 and _match(observed[i], exp[i - 1]) is None:
-                ctx.fail(
-                    "yield-once",
-                    f"duplicate:{exp[i - 1]['cls']}",
-                    f"{op}: response #{i} ({exp[i - 1]['cls']}) was yielded twice: observed {[_show(y) for y in observed]}, "
-                    f"expected {[x['cls'] for x in exp]}",
-                )
-            else:
-                ctx.fail(
-                    "result",
-                    f"{bad}:{e['cls']}",
-                    f"{op}: yield #{i + 1} is {_show(observed[i])}, expected class {e['cls']} status "
-                    f"{e['status'] if isinstance(e['status'], str) else hex(e['status'])} ident {e['ident'] and e['ident'][0]}; all: {[_show(y) for y in observed]}",
-                )
-            return
-    if len(observed) > len(exp):
-        last = exp[-1]["cls"] if exp else "nothing"
-        if exp and _match(observed[len(exp)], exp[-1]) is None:
-            ctx.fail("yield-once", f"duplicate:{last}", f"{op}: last response ({last}) yielded again: {[_show(y) for y in observed]}")
+def _tag(y):
+    """script index carried by a yielded status ("r<idx>" in ErrorComment) or None."""
+    try:
+        c = str(y[0].get("ErrorComment", ""))
+    except Exception:
+        return None
+    if c.startswith("r") and c[1:].isdigit():
+        return int(c[1:])
+    return None
+
+
+def align(observed, exp):
+    """Assign every observed yield to the expected response it reports.
+
+    -> (owner: index into exp (or None) per observed yield, problems: list of (clause, key, detail)).
+    A yield that reports the same response as the yield before it is a duplicate of THAT response (alignment goes
+    on behind it); the first yield that fits nowhere ends the interpretation."""
+    owner, problems = [], []
+    j = 0
+    for k, y in enumerate(observed):
+        t = _tag(y)
+        fits_next = j < len(exp) and _match(y, exp[j]) is None and (t is None or exp[j].get("src") is None or exp[j]["src"] == t)
+        fits_prev = j > 0 and _match(y, exp[j - 1]) is None and (t is None or exp[j - 1].get("src") is None or exp[j - 1]["src"] == t)
+        if t is not None and j > 0 and exp[j - 1].get("src") == t:
+            fits_next = False  # the tag says: same response as before
+        if fits_next:
+            owner.append(j)
+            j += 1
+            continue
+        if fits_prev:
+            owner.append(j - 1)
+            problems.append(("yield-once", f"duplicate:{exp[j - 1]['cls']}", f"response #{j} ({exp[j - 1]['cls']}) was yielded again as yield #{k + 1}"))
+            continue
+        owner.append(None)
+        if j < len(exp):
+            e = exp[j]
+            bad = _match(y, e) or "order"
+            want = e["status"] if isinstance(e["status"], str) else hex(e["status"])
+            problems.append(("result", f"{bad}:{e['cls']}", f"yield #{k + 1} is {_show(y)}, expected class {e['cls']} status {want} ident {e['ident'] and e['ident'][0]}"))
         else:
-            ctx.fail("yield-once", f"extra-after:{last}", f"{op}: {len(observed) - len(exp)} yields after the iterator should have stopped: {[_show(y) for y in observed]}")
+            problems.append(("yield-once", f"extra-after:{exp[-1]['cls'] if exp else 'nothing'}", f"yield #{k + 1} {_show(y)} after the iterator should have stopped"))
+        return owner + [None] * (len(observed) - len(owner)), problems
+    if j < len(exp):
+        problems.append(("yield-once", f"missing:{exp[j]['cls']}", f"only {len(observed)} yields, response #{j + 1} ({exp[j]['cls']}) never surfaced"))
+    return owner, problems
 
 
 # --------------------------------------------------------------------------- the check
@@ -336,7 +356,7 @@ def check_scu(ctx, case):
         contexts.append((K.CT, ts, False, True, 3))
     a = mk("requestor", contexts)
     a.bind(evt.EVT_C_STORE, lambda event: 0x0000)
-    queued = [build(it, op, ts) for it in script]
+    queued = [build(it, op, ts, i) for i, it in enumerate(script)]
     for q in queued:
         a.dimse.msg_queue.put(q)
     if case.get("peer_abort"):
@@ -426,13 +446,15 @@ def check_scu(ctx, case):
             f"raises:{type(raised).__name__}:{'n-op-with-reply' if op in N_WITH_REPLY else op}:{cls}",
             f"{op} raised instead of returning the documented result; script item class {cls}\n{sig.exc_text(raised)}",
         )
-    else:
-        compare(ctx, op, observed, exp)
+    owner = [None] * len(observed)
+    if raised is None:
+        owner, problems = align(observed, exp)
+        for clause, key, detail in problems:
+            ctx.fail(clause, key, f"{op}: {detail}; observed {[_show(y) for y in observed]}, expected {[x['cls'] for x in exp]}")
 
-    # ---- locks
+    # ---- locks (a yield is attributed to the response it reports, duplicates to the duplicated response)
     for i in lock_held_at:
-        cls = exp[i]["cls"] if i < len(exp) else "beyond-expected"
-        # a duplicate yield belongs to the response before it
+        cls = exp[owner[i]]["cls"] if i < len(owner) and owner[i] is not None else "unattributed"
         ctx.fail("lock-free", f"lock-held:{cls}", f"{op}: ae._lock is NOT acquirable while the iterator is suspended at yield #{i + 1} ({cls}); yields: {[_show(y) for y in observed]}")
     if not K.lock_free(a):
         ctx.fail("lock-free", "lock-held:after-return", f"{op}: ae._lock still held after the call returned / the iterator ended")
@@ -483,7 +505,7 @@ def strategies():
 
     @st.composite
     def rsp(draw, statuses):
-        return {"t": "rsp", "status": draw(st.sampled_from(statuses)), "ds": draw(st.sampled_from(dsk)), "elems": draw(elems()), "comment": draw(st.booleans())}
+        return {"t": "rsp", "status": draw(st.sampled_from(statuses)), "ds": draw(st.sampled_from(dsk)), "elems": draw(elems())}
 
     @st.composite
     def wrong(draw, kinds):
@@ -537,7 +559,7 @@ def strategies():
         else:
             script = [draw(anyitem(op)) for _ in range(draw(st.integers(0, 3)))]
         c = {"op": op, "script": script, "ts": draw(st.sampled_from(list(K.UNCOMPRESSED))), "elems": draw(elems())}
-        if draw(st.integers(0, 11)) == 0:
+        if draw(st.sampled_from([False] * 11 + [True])):
             c["peer_abort"] = True
         return c
 
